@@ -781,3 +781,17 @@ mod tests {
     assert_eq!(Some(-10 * SECONDS_IN_HOUR), get_zone_offset("Pacific/Honolulu", (2020, 6, 8), (8, 0, 0, 0)));
   }
 }
+
+#[cfg(dmntk_verif)]
+impl FeelTime {
+  /// Verification hook: `(hour, minute, second, nanosecond, zone kind, offset seconds, zone name)`
+  /// where zone kind is one of `utc`, `local`, `offset`, `zone`.
+  pub fn verif_parts(&self) -> (u8, u8, u8, u64, &'static str, i32, String) {
+    match &self.4 {
+      FeelZone::Utc => (self.0, self.1, self.2, self.3, "utc", 0, String::new()),
+      FeelZone::Local => (self.0, self.1, self.2, self.3, "local", 0, String::new()),
+      FeelZone::Offset(offset) => (self.0, self.1, self.2, self.3, "offset", *offset, String::new()),
+      FeelZone::Zone(name) => (self.0, self.1, self.2, self.3, "zone", 0, name.clone()),
+    }
+  }
+}
